@@ -9,6 +9,7 @@ import (
 	"go.flow.arcalot.io/engine/zverif/harness"
 	"go.flow.arcalot.io/engine/zverif/ir"
 	"go.flow.arcalot.io/engine/zverif/ref"
+	"go.flow.arcalot.io/engine/zverif/simrt"
 	"go.flow.arcalot.io/engine/zverif/world"
 )
 
@@ -277,24 +278,31 @@ func OracleResult(prop string, v *View) []Violation {
 		return nil
 	}
 	f := v.Facts
+	// A fallback detector that gave up while a step goroutine was merely held up is C09's finding; the
+	// other properties leave such runs to it. Giving up with nothing held up means the run really lost
+	// its way, and that is everybody's business.
+	shape, heldUp := stalledShape(v)
+	attribute := func(vs []Violation) []Violation {
+		if heldUp && prop != "C09" {
+			return nil
+		}
+		for i := range vs {
+			vs[i].Shape += shape
+		}
+		return vs
+	}
 	if c.Err == "" {
 		want, ok := f.Producible[c.OutputID]
 		if !ok {
-			return []Violation{viol(prop, "output-not-producible", "", "returned output %q but the producible set is %v (steps: %s)", c.OutputID, f.ProducibleIDs(), factsSummary(f))}
+			return attribute([]Violation{viol(prop, "output-not-producible", "", "returned output %q but the producible set is %v (steps: %s)", c.OutputID, f.ProducibleIDs(), factsSummary(f))})
 		}
 		if err := ref.Match(want, c.OutputData); err != nil {
-			return []Violation{viol(prop, "output-data", "", "output %q data %s does not match the reference %s: %v", c.OutputID, harness.JSON(c.OutputData), modelJSON(want), err)}
+			return attribute([]Violation{viol(prop, "output-data", "", "output %q data %s does not match the reference %s: %v", c.OutputID, harness.JSON(c.OutputData), modelJSON(want), err)})
 		}
 		return nil
 	}
 	if len(f.Producible) > 0 && len(f.RunError) == 0 {
-		shape, heldUp := stalledShape(v)
-		if c.ErrClass == "no-more-steps" && prop != "C09" && heldUp {
-			// the fallback detector giving up while a step goroutine was merely held up is C09's finding;
-			// giving up with nothing held up means the run really lost its way
-			return nil
-		}
-		return []Violation{viol(prop, "spurious-error", c.ErrClass+shape, "run failed with %q (class %s) although outputs %v are producible (steps: %s)", c.Err, c.ErrClass, f.ProducibleIDs(), factsSummary(f))}
+		return attribute([]Violation{viol(prop, "spurious-error", c.ErrClass, "run failed with %q (class %s) although outputs %v are producible (steps: %s)", c.Err, c.ErrClass, f.ProducibleIDs(), factsSummary(f))})
 	}
 	return nil
 }
@@ -794,13 +802,56 @@ func OraclePrompt(prop string, v *View) []Violation {
 	return nil
 }
 
-// stalledShape says where the step goroutines were held up by the scheduler when the engine's
-// fallback detector gave up (identified by function, not by line, so it survives unrelated edits).
+// runRoot is the role of the goroutine that runs the (sub-)workflow a goroutine belongs to: the prefix
+// of its name up to the innermost loop worker, or the client itself.
+func runRoot(role string) string {
+	root := role
+	if i := strings.Index(role, "/"); i >= 0 {
+		segs := strings.SplitN(role, "/", 4)
+		if len(segs) >= 3 {
+			root = strings.Join(segs[:3], "/") // env/client/<name>
+		}
+	}
+	for _, loc := range roleTail.FindAllStringIndex(role, -1) {
+		if spawnFunc[role[loc[0]:loc[1]]] == "*runningStep.executeSubWorkflows" {
+			root = role[:loc[1]]
+		}
+	}
+	return root
+}
+
+func stripInstances(name string) string {
+	return instanceNo.ReplaceAllString(name, "")
+}
+
+var instanceNo = regexp.MustCompile(`#\d+`)
+
+// stalledShape says where the step goroutines of a (sub-)workflow were held up by the scheduler when
+// that workflow's fallback detector gave up (identified by function, not by line, so it survives
+// unrelated edits). Only goroutines of the detector's own workflow count: the steps of a sub-workflow
+// that is still running are covered by the loop step's own "running" state. The second result says
+// whether any was held up at all.
 func stalledShape(v *View) (string, bool) {
-	if v.C0 == nil || v.C0.ErrClass != "no-more-steps" || len(v.R.Snapshots) == 0 {
+	if v.C0 == nil || len(v.R.Snapshots) == 0 {
 		return "", false
 	}
-	sn := v.R.Snapshots[len(v.R.Snapshots)-1]
+	// the give-up that explains the result: the run's own if it failed with that error, else a sub-run's
+	var sn *simrt.Snapshot
+	for i := range v.R.Snapshots {
+		x := &v.R.Snapshots[i]
+		top := !strings.Contains(runRoot(stripInstances(x.G)), "provider.go:")
+		if top == (v.C0.ErrClass == "no-more-steps") {
+			sn = x
+		}
+	}
+	if sn == nil {
+		return "", false
+	}
+	root := runRoot(stripInstances(sn.G))
+	prefix := ""
+	if strings.Contains(root, "provider.go:") {
+		prefix = "; the detector of a sub-workflow gave up"
+	}
 	inNotify, elsewhere := 0, map[string]bool{}
 	for _, o := range sn.Others {
 		if strings.Contains(o, " after@") {
@@ -808,10 +859,21 @@ func stalledShape(v *View) (string, bool) {
 		}
 		i := strings.LastIndex(o, "@")
 		role, site := o[:i], strings.TrimPrefix(o[i+1:], "go:")
-		if !strings.Contains(role, "provider.go:") || strings.HasSuffix(role, "workflow/workflow.go:672") || strings.Contains(role, "workflow.go:672/") {
-			continue
+		if runRoot(role) != root {
+			continue // another (sub-)workflow
 		}
 		fn := SiteFunc[site]
+		if role == root {
+			// the goroutine that runs the workflow: late in collecting the result is harmless, held up
+			// on its way into the run lock is not
+			if SiteKind[site] == "lock" {
+				elsewhere[fn+" (the run goroutine)"] = true
+			}
+			continue
+		}
+		if sp := SpawnedIn(role); len(sp) > 0 && sp[len(sp)-1] == "*loopState.checkForDeadlocks" {
+			continue // an earlier retry of the detector itself, not a step
+		}
 		switch {
 		case fn == "*loopState.onStageComplete" && SiteKind[site] == "lock":
 			inNotify++
@@ -821,13 +883,13 @@ func stalledShape(v *View) (string, bool) {
 			elsewhere[fn] = true
 		}
 	}
-	if len(elsewhere) == 0 && inNotify > 0 {
-		return "; every held-up step goroutine is waiting to enter a stage-change notification", true
+	if inNotify > 0 {
+		return prefix + "; a held-up step goroutine is waiting to enter a stage-change notification", true
 	}
 	if len(elsewhere) == 0 {
-		return "; no step goroutine was held up", false
+		return prefix + "; no step goroutine was held up", false
 	}
-	return "; step goroutines held up in: " + strings.Join(keys(elsewhere), ","), true
+	return prefix + "; step goroutines held up in: " + strings.Join(keys(elsewhere), ","), true
 }
 
 // stoppedBeforeStart is C04's third clause: a step whose stop condition fired before it could start
